@@ -29,7 +29,11 @@ partial def loop (h : IO.FS.Stream) (out : IO.FS.Stream) (hl : Hostlist) : IO Un
   | ["D", n] =>
     let (hl', k) := deleteHost hl n.toList
     out.putStrLn s!"D {k} {(expand hl').length}"; loop h out hl'
-  | ["K"] => out.putStrLn s!"K {hl.length}"; loop h out hl
+  | ["K"] => out.putStrLn "K"; loop h out hl
+  | ["T"] =>
+    match create (rangedString hl) with
+    | .ok hl' => out.putStrLn ("T" ++ String.join ((expand hl').map fun n => " " ++ String.ofList n)); loop h out hl
+    | .error _ => out.putStrLn "T NULL"; loop h out hl
   | _ => out.putStrLn "bad-op"; loop h out hl
 
 def main : IO Unit := do loop (← IO.getStdin) (← IO.getStdout) []
